@@ -1,4 +1,5 @@
 import QuinnModel.Gen.DgramMtud
+import QuinnModel.Gen.SendGate
 /-!
 How much room `Connection::poll_transmit` gives the next datagram of a batch (`next_datagram_size_limit`):
 
@@ -20,5 +21,54 @@ def nextDatagramLimit (lossProbes segmentSize : Nat) : Nat × Nat :=
   match lossProbes with
   | 0 => (0, segmentSize)
   | n + 1 => (n, min segmentSize Gen.initialMtu)
+
+end QM.Sizing
+
+/-!
+Capacity and padding arithmetic of one datagram (`poll_transmit` + `PacketBuilder::{new,pad_to,finish}`), shape-anchored
+in `Gen/SendGate.lean` (`sgMaxSizeShape`, `sgPadToShape`, `sgFinishPadShape`, `sgPadInitialShape`, `sgPadPathFramesShape`,
+`sgPadLastShape`):
+
+    buf_capacity += next_datagram_size_limit;  datagram_start = buf.len();          // = old buf_capacity when aligned
+    max_size = buf_capacity - tag_len;                                               // PacketBuilder::new
+    pad_to(n):   min_size = max(min_size, datagram_start + n - tag_len)              // does NOT look at max_size
+    finish:      payload end = max(buf.len(), min_size); datagram end = payload end + tag_len
+
+`payloadEnd` is where the frame writers stopped (an input: the writers are not modelled).
+-/
+namespace QM.Sizing
+
+structure Dgram where
+  /-- `datagram_start` -/
+  start : Nat
+  /-- `next_datagram_size_limit` -/
+  limit : Nat
+  tagLen : Nat
+  /-- `buf.len()` after the last packet's frames were written (absolute position) -/
+  payloadEnd : Nat
+  /-- `min_size` of the last packet before any `pad_to` (header protection sample etc.) -/
+  minSize : Nat
+  /-- `pad_datagram`: `pad_to(MIN_INITIAL_SIZE)` is applied to the last packet -/
+  pad : Bool
+
+/-- `builder.max_size` of the last packet -/
+def maxSize (d : Dgram) : Nat :=
+  let _ := Gen.sgMaxSizeShape
+  d.start + d.limit - d.tagLen
+
+/-- `min_size` after the optional `pad_to(MIN_INITIAL_SIZE)` -/
+def paddedMin (d : Dgram) : Nat :=
+  let _ := (Gen.sgPadToShape, Gen.sgPadLastShape)
+  if d.pad then max d.minSize (d.start + Gen.sgMinInitialSize - d.tagLen) else d.minSize
+
+/-- length of the finished datagram -/
+def finishedLen (d : Dgram) : Nat :=
+  let _ := Gen.sgFinishPadShape
+  max d.payloadEnd (paddedMin d) + d.tagLen - d.start
+
+/-- `pad_datagram` as `poll_transmit` computes it for a datagram whose packets are described by the flags -/
+def padDatagram (hasInitial isClient initialAckEliciting requiresPadding : Bool) : Bool :=
+  let _ := (Gen.sgPadInitialShape, Gen.sgPadPathFramesShape)
+  (hasInitial && (isClient || initialAckEliciting)) || requiresPadding
 
 end QM.Sizing
